@@ -935,7 +935,7 @@ def dump_doc(v, t, model, r):
         return ['L', [dump_doc(x, tt, model, r) for x, tt in zip(v[1], t['ts'])]]
     if k == 'dict':
         return ['D', None, [[dump_doc(kk, t['kt'], model, r), dump_doc(x, t['vt'], model, r)] for kk, x in v[2]]]
-    if k == 'opt':
+    if k in ('opt', 'optr'):
         return v if v == ['N'] else dump_doc(v, t['t'], model, r)
     if k == 'lit':
         return v
@@ -944,9 +944,12 @@ def dump_doc(v, t, model, r):
             alt = [x for x in t['ts'] if x['k'] == 'data' and model['classes'][x['c']]['name'] == v[1]][0]
             d = dump_doc(v, alt, model, r)
             return ['D', None, [[['S', TAG_KEY], ['S', v[1]]]] + d[2]]
-        if v[0] == 'L':
-            alt = [x for x in t['ts'] if x['k'] == 'seq'][0]
-            return dump_doc(v, alt, model, r)
+        tagleaf = {'I': 'int', 'S': 'str', 'F': 'float', 'B': 'bool', 'N': 'none', 'Y': 'bytes', 'A': 'bytearray'}
+        for x in t['ts']:        # the member the value belongs to
+            if (v[0] in TAG_SEQ and x['k'] == 'seq' and SEQ_TAG[x['kind']] == v[0]) or (v[0] == 'D' and x['k'] in ('dict', 'typed')) \
+                    or (v[0] == 'M' and x['k'] == 'named') \
+                    or (x['k'] == 'leaf' and (x['l'] == tagleaf.get(v[0]) or (v[0] == 'O' and x['l'] == v[1]))):
+                return dump_doc(v, x, model, r)
         return v
     if k == 'named':
         return ['L', [dump_doc(x, tt, model, r) for x, (_, tt) in zip(v[2], model['named'][t['name']])]]
